@@ -87,6 +87,9 @@ type Sub struct {
 	Wild     bool // model lost track (e.g. expiry inside an uncertainty window)
 	// bookkeeping for evidence
 	IsDLTarget bool
+	// DLEver: every topic this subscription has ever dead-lettered into (its
+	// policy can be changed; copies forwarded under an earlier policy remain)
+	DLEver map[*Topic]bool
 }
 
 type Msg struct {
@@ -237,6 +240,8 @@ func (d *Del) whyOpt(c certainty, lo, hi time.Time, noOrder bool) string {
 
 // dlVoid: the subscription has a dead-letter policy whose topic was deleted.
 func (s *Sub) dlVoid() bool { return s.Cfg.DLTopic != nil && !s.Cfg.DLTopic.Live }
+
+func (s *Sub) everDL(t *Topic) bool { return s.Cfg.DLTopic == t || s.DLEver[t] }
 
 func (s *Sub) hasDL() bool { return s.Cfg.DLTopic != nil && s.Cfg.MaxAttempts > 0 }
 
